@@ -410,9 +410,12 @@ def rule_r3(ctx: Ctx) -> None:
         if test is not None and "union" in norm(test) and ("UnionType" in body + orelse) and ("StructureType" in body + orelse):
             positive = not (isinstance(test, ast.UnaryOp) and isinstance(test.op, ast.Not))
             sel.append(("UnionType" in body) == positive and ("StructureType" in orelse) == positive)
-    if not sel:
-        raise AnalysisError("_make_composite: the choice between UnionType and StructureType was not found")
-    ctx.check(all(sel), mk.short, "UnionType iff the schema is a union", "the intrinsic and the final type choose union vs structure by the same flag", mk.where(), nontrivial=False)
+    if sel:
+        ctx.check(all(sel), mk.short, "UnionType iff the schema is a union", "the intrinsic and the final type choose union vs structure by the same flag", mk.where(), nontrivial=False)
+    else:
+        # the choice is not written as a conditional on the flag (a table, getattr(module, name) ...): that `@union` yields a
+        # union whose `_offset_` is tag + union of the variants is decided extensionally, from texts, by C08.R7
+        ctx.undecided("C08.R3: the syntactic agreement of the union / structure choice (not written as a conditional on this tree); decided extensionally by C08.R7")
     rule_identifiers(ctx, parts=("offset",))
     rt = ctx.cls("_data_type_builder.DataTypeBuilder").methods["resolve_top_level_identifier"]
     # _bit_length_ / _extent_ / constants as attributes of a type: instances are constructed over abstract arguments and asked
